@@ -110,7 +110,9 @@ theorem reportVal_code (p : Params) (as : List Attr) (a : Attr) (v : AttrVal)
   case unknown c raw =>
     split at h
     · cases h; rfl
-    · cases h
+    · split at h
+      · cases h; rfl
+      · cases h
   case asPath s =>
     split at h
     · cases h; rfl
